@@ -208,6 +208,9 @@ func NewSys(defs *definition.PipelinesDef, st store.DataStore, out taskctl.Outpu
 	registryMu.Lock()
 	allSys[s] = struct{}{}
 	registryMu.Unlock()
+	if rs, ok := st.(*RecStore); ok && rs.Log == nil {
+		rs.Log = s.Log
+	}
 	r, err := prunner.NewPipelineRunner(s.ctx, defs, s.createTaskRunner, st, out)
 	if err != nil {
 		s.Close()
@@ -490,6 +493,14 @@ func (s *Sys) ReadJob(job string) (JobSnap, bool) {
 	var snap JobSnap
 	err := s.R.ReadJob(uuid.FromStringOrNil(job), func(j *prunner.PipelineJob) { snap = SnapJob(j) })
 	return snap, err == nil
+}
+
+// ReadJobRec is ReadJob with call/return events (stress clients)
+func (s *Sys) ReadJobRec(client int, job string) (JobSnap, bool) {
+	c := s.call(client, "readjob", "", job, "")
+	snap, ok := s.ReadJob(job)
+	s.ret(client, "readjob", "", job, fmt.Sprint(ok), c, nil)
+	return snap, ok
 }
 
 // View is an atomic snapshot of all jobs (one IterateJobs call), sorted by creation time and id
